@@ -1,10 +1,13 @@
 #!/bin/bash
-# no-alarm sweep: every quick check under several master seeds; prints any alarm
+# no-alarm sweep: every quick check under several master seeds; prints any alarm.
+# With VERIF_REPO (or $VP_RUN_REPO from `vp run --with-repo`) the library snapshot is used, so that
+# work in /repo does not disturb a sweep in the background.
 cd "$(dirname "$0")/.." || exit 2
-./check.sh --build || exit 2
+[ -n "$VP_RUN_REPO" ] && export VERIF_REPO="$VP_RUN_REPO"
+BIN=$(./check.sh --bin | tail -1) || exit 2
 for seed in "$@"; do
   for p in C01 C05 C06 C07 C08 C09 C10 C11 C12 C13 C14 C15 C16 C17 C19 C20; do
-    out=$(VERIF_SEED=$seed ./target/sim/simcheck $p --tier ${TIER:-quick} --no-evidence 2>&1); rc=$?
+    out=$(VERIF_SEED=$seed $BIN $p --tier ${TIER:-quick} --no-evidence 2>&1); rc=$?
     echo "seed=$seed $p exit=$rc $(echo "$out" | grep -E '^violation|HARNESS' | head -3 | cut -c1-200)"
   done
 done
